@@ -179,6 +179,11 @@ func Run(spec RunSpec) (res *RunResult) {
 				w.Cfg.PSimulate = 0.3 * w.simRng.Float()
 			}
 		}
+		// (VERIF_FORCE_INITIAL: development aid, every run starts high; the registered checks never set it)
+		if hr := NewRand(Mix(spec.Seed, "initial-height", 0)); hr.Bool(0.12) || os.Getenv("VERIF_FORCE_INITIAL") != "" {
+			boundary := []int64{1 << 8, 1 << 8, 1 << 8, 1 << 16, 1 << 16, 1 << 32}[hr.Intn(6)]
+			w.Cfg.InitialHeight = boundary - 3 - hr.Int63n(118)
+		}
 		w.Sched.Engine = w.Cfg
 	}
 	w.NeedDenom(sdk.DefaultBondDenom, new(big.Int).Lsh(big.NewInt(1), 100))
@@ -298,11 +303,14 @@ func (w *World) start() {
 	spec := w.GenesisSpec()
 	state := n.BuildGenesis(spec)
 	w.GenesisState = state
-	if err := n.InitChain(state, spec.Time, 1, w.Cfg.MaxGas); err != nil {
+	if err := n.InitChain(state, spec.Time, w.Base()+1, w.Cfg.MaxGas); err != nil {
 		Fatal("InitChain of the run's own genesis failed: %v", err)
 	}
 	w.Time = spec.Time
-	w.Height = 0
+	w.Height = w.Base()
+	if w.Base() > 0 {
+		w.Hit("chain.initial_height_above_one")
+	}
 	// mirror the genesis balances
 	for _, a := range spec.Accounts {
 		for _, c := range a.Coins {
@@ -659,7 +667,7 @@ func (w *World) execBlock(bp *BlockPlan) bool {
 		h.Write(res.AppHash)
 		copy(w.appDigest[:], h.Sum(nil))
 	}
-	if w.Height > 1 {
+	if w.Height > w.Base()+1 {
 		w.checkLedger()
 	}
 	// re-synchronise sequences with the committed state
